@@ -295,6 +295,17 @@ def run_case(chk, ob, ip, prog, case, props, extra_judge=None):
                    'roles': ['primary' if r == 0 else 'replica' for r in case.roles]}
             if prop == 'C18':
                 cmd['probe_b'] = False
+                if key in ('H/transaction-total', 'H/query-total'):
+                    # the client stays connected after its last message (without Terminate) so that its counters can be read
+                    body = msgs[:-1] if case.stop == 'X' else msgs
+                    cmd['client_hex'] = hexs[:2 * sum(len(x) for x in body)]
+                    cmd['eof'] = False
+                mm_ = re.search(r'before reading message (\d+)', text)
+                if mm_:
+                    # natively: the client stays connected and silent at that point; SHOW CLIENTS is sampled then
+                    upto = sum(len(x) for x in msgs[:int(mm_.group(1))])
+                    cmd['client_hex'] = hexs[:2 * upto]
+                    cmd['eof'] = False
             if prop == 'C10':
                 mm_ = re.search(r'before reading message (\d+)', text)
                 if mm_:
@@ -313,7 +324,11 @@ def run_case(chk, ob, ip, prog, case, props, extra_judge=None):
             if case.shutdown:
                 fired = [e[2] for e in env.events if e[0] == 'shutdown']
                 if fired:
-                    pos = fired[0]
+                    # the broadcast is sent while pgcat is busy with (or waiting for) the message BEFORE the point where this session
+                    # received it: whichever of recv() / try_recv() asks next then finds it queued
+                    bounds = [sum(len(mm) for mm in msgs[:k]) for k in range(len(msgs) + 1)]
+                    prev = [b for b in bounds if b < fired[0]]
+                    pos = prev[-1] if prev else 0
                     cmd['steps'] = ([{'send_hex': hexs[:2 * pos]}] if pos else []) + [{'shutdown': True}, {'send_hex': hexs[2 * pos:]}]
             if case.stmt_timeout:
                 # natively the reference backend sleeps 1.5 s on pg_sleep statements; statement_timeout 500 ms fires, or (witness
@@ -833,6 +848,10 @@ def model_byte(m, b):
     return v.as_long()
 
 
+def decv(b):
+    return b.v if b is not None and b.concrete else None
+
+
 @expectation('h_violation')
 def h_violation(prop, key, cache_on, incomplete, hexs, n_before=None, denied_hex=(), eff_hex=None, custom_shards=None, params=None):
     """Native confirmation: the same reference model, evaluated on what the Rust reference backends and the two client
@@ -871,6 +890,25 @@ def h_violation(prop, key, cache_on, incomplete, hexs, n_before=None, denied_hex
                 hit = [1] if ents else []
             else:
                 hit = [1] if not ents else []
+        if prop == 'C18' and key == 'H/client-state':
+            # natively: what SHOW CLIENTS lists for the (still connected, silent) client, against whether its request left it a server
+            st = [x[0] for x in (r.get('clients_after_a') or [])]
+            busy = any(decv(rq.get('status_after')) != ord('I') for rq in data['reqs'][-1:])
+            hit = [1] if (len(st) == 1 and st[0] != ('active' if busy else 'idle')) else []
+        if prop == 'C18' and key in ('H/transaction-total', 'H/query-total'):
+            # natively: the still-connected client's counters in the registry against what the reference backends executed for it
+            st = r.get('clients_after_a') or []
+            units = [rq for rq in data['reqs'] if rq.get('origin') == 'client' and HE.code_of(rq['bytes']) in 'QS']
+            want_q = len(units)
+            ends = [rq for rq in data['reqs'] if rq.get('origin') == 'client' and HE.code_of(rq['bytes']) in 'QScf' and not rq.get('started_copy')]
+            want_tx = sum(1 for rq in ends if rq['delivered'] and decv(rq.get('status_after')) == ord('I'))
+            own = sum(1 for mm in complete if HE.code_of(mm) == 'S') - sum(1 for rq in units if HE.code_of(rq['bytes']) == 'S')
+            if len(st) == 1:
+                ntx, nq = st[0][1], st[0][2]
+                bad = (not (want_tx <= ntx <= want_tx + max(0, own))) if key == 'H/transaction-total' else (nq != want_q)
+                hit = [1] if bad else []
+            else:
+                hit = []
         if prop == 'C18' and key.startswith('H/client-never-unregistered'):
             # natively: the client's task is over but SHOW CLIENTS would still list it
             hit = [1] if (r.get('a_result') != 'still-running' and r.get('clients_after_a')) else []
